@@ -612,43 +612,61 @@ def hasKey (ms : List Member) (k : Bytes) : Bool :=
     | .key k' => decide (k' = k)
     | .idx _ => false
 
+/-- child.go `Child.remove` -/
+def remChild (k : Bytes) : Modifier := fun c =>
+  match c with
+  | .obj kvs => if (lookup k kvs).isSome then (.obj (kvErase k kvs), true) else (c, false)
+  | _ => (c, false)
+
+/-- nth.go `Nth.remove` -/
+def remNth (i : Int) : Modifier := fun c =>
+  match c with
+  | .arr xs =>
+    match absIdx xs.length i with
+    | some j => (.arr (xs.eraseIdx j), true)
+    | none => (c, false)
+  | _ => (c, false)
+
+/-- wildcard.go `Wildcard.remove` -/
+def remWild : Modifier := fun c =>
+  match c with
+  | .arr xs => if xs.isEmpty then (c, false) else (.arr [], true)
+  | .obj kvs => if kvs.isEmpty then (c, false) else (.obj [], true)
+  | _ => (c, false)
+
+/-- union.go `Union.remove` -/
+def remUnion (dev : Dev) (ms : List Member) : Modifier := fun c =>
+  match c with
+  | .arr xs =>
+    if anyIdx (hasN dev xs.length ms) xs.length then (.arr (dropIdx (hasN dev xs.length ms) 0 xs), true) else (c, false)
+  | .obj kvs =>
+    if kvs.any fun m => hasKey ms m.1 then (.obj (kvs.filter fun m => !hasKey ms m.1), true) else (c, false)
+  | _ => (c, false)
+
+/-- slice.go `Slice.remove` -/
+def remSlice (dev : Dev) (s e t : Option Int) : Modifier := fun c =>
+  match c with
+  | .arr xs =>
+    if anyIdx (remSel dev xs.length s e t) xs.length then (.arr (dropIdx (remSel dev xs.length s e t) 0 xs), true)
+    else (c, false)
+  | _ => (c, false)
+
+/-- filter.go `Filter.remove` -/
+def remFilter (p : JV → Bool) : Modifier := fun c =>
+  match c with
+  | .arr xs => if xs.any p then (.arr (xs.filter fun v => !p v), true) else (c, false)
+  | .obj kvs => if kvs.any fun m => p m.2 then (.obj (kvs.filter fun m => !p m.2), true) else (c, false)
+  | _ => (c, false)
+
 /-- `remove` (every match) of a fragment; `none`: the fragment has no such method -/
 def removeAllOf (dev : Dev) (f : Frag) : Option Modifier :=
   match f with
-  | .child k => some fun c =>
-    match c with
-    | .obj kvs => if (lookup k kvs).isSome then (.obj (kvErase k kvs), true) else (c, false)
-    | _ => (c, false)
-  | .nth i => some fun c =>
-    match c with
-    | .arr xs =>
-      match absIdx xs.length i with
-      | some j => (.arr (xs.eraseIdx j), true)
-      | none => (c, false)
-    | _ => (c, false)
-  | .wild => some fun c =>
-    match c with
-    | .arr xs => if xs.isEmpty then (c, false) else (.arr [], true)
-    | .obj kvs => if kvs.isEmpty then (c, false) else (.obj [], true)
-    | _ => (c, false)
-  | .union ms => some fun c =>
-    match c with
-    | .arr xs =>
-      if anyIdx (hasN dev xs.length ms) xs.length then (.arr (dropIdx (hasN dev xs.length ms) 0 xs), true) else (c, false)
-    | .obj kvs =>
-      if kvs.any fun m => hasKey ms m.1 then (.obj (kvs.filter fun m => !hasKey ms m.1), true) else (c, false)
-    | _ => (c, false)
-  | .slice s e t => some fun c =>
-    match c with
-    | .arr xs =>
-      if anyIdx (remSel dev xs.length s e t) xs.length then (.arr (dropIdx (remSel dev xs.length s e t) 0 xs), true)
-      else (c, false)
-    | _ => (c, false)
-  | .filter p => some fun c =>
-    match c with
-    | .arr xs => if xs.any p then (.arr (xs.filter fun v => !p v), true) else (c, false)
-    | .obj kvs => if kvs.any fun m => p m.2 then (.obj (kvs.filter fun m => !p m.2), true) else (c, false)
-    | _ => (c, false)
+  | .child k => some (remChild k)
+  | .nth i => some (remNth i)
+  | .wild => some remWild
+  | .union ms => some (remUnion dev ms)
+  | .slice s e t => some (remSlice dev s e t)
+  | .filter p => some (remFilter p)
   | .descent => none
 
 /-- the first key in sorted order that satisfies `q` -/
@@ -659,45 +677,57 @@ def lookupD (k : Bytes) (kvs : List (Bytes × JV)) : JV := (lookup k kvs).getD .
 /-- the slice steps backwards -/
 def negStep (t : Option Int) : Bool := decide (t.getD 1 < 0)
 
+/-- wildcard.go `Wildcard.removeOne` -/
+def remWildOne : Modifier := fun c =>
+  match c with
+  | .arr xs =>
+    match xs with
+    | [] => (c, false)
+    | _ :: r => (.arr r, true)
+  | .obj kvs =>
+    match firstKey (fun _ => true) kvs with
+    | some k => (.obj (kvErase k kvs), true)
+    | none => (c, false)
+  | _ => (c, false)
+
+/-- union.go `Union.removeOne` -/
+def remUnionOne (dev : Dev) (ms : List Member) : Modifier := fun c =>
+  match c with
+  | .arr xs =>
+    if anyIdx (hasN dev xs.length ms) xs.length then (.arr (dropFirstIdx (hasN dev xs.length ms) 0 xs), true) else (c, false)
+  | .obj kvs =>
+    match firstKey (hasKey ms) kvs with
+    | some k => (.obj (kvErase k kvs), true)
+    | none => (c, false)
+  | _ => (c, false)
+
+/-- slice.go `Slice.removeOne` -/
+def remSliceOne (dev : Dev) (s e t : Option Int) : Modifier := fun c =>
+  match c with
+  | .arr xs =>
+    if anyIdx (remSel dev xs.length s e t) xs.length then
+      (.arr (if negStep t then dropLastIdx (remSel dev xs.length s e t) xs
+             else dropFirstIdx (remSel dev xs.length s e t) 0 xs), true)
+    else (c, false)
+  | _ => (c, false)
+
+/-- filter.go `Filter.removeOne` -/
+def remFilterOne (p : JV → Bool) : Modifier := fun c =>
+  match c with
+  | .arr xs => if xs.any p then (.arr (dropFirstIdx (fun i => p (xs.getD i .null)) 0 xs), true) else (c, false)
+  | .obj kvs =>
+    match firstKey (fun k => p (lookupD k kvs)) kvs with
+    | some k => (.obj (kvErase k kvs), true)
+    | none => (c, false)
+  | _ => (c, false)
+
 /-- `removeOne` of a fragment where it has one, else its `remove` -/
 def removeOneOf (dev : Dev) (f : Frag) : Option Modifier :=
   match f with
-  | .wild => some fun c =>
-    match c with
-    | .arr xs =>
-      match xs with
-      | [] => (c, false)
-      | _ :: r => (.arr r, true)
-    | .obj kvs =>
-      match firstKey (fun _ => true) kvs with
-      | some k => (.obj (kvErase k kvs), true)
-      | none => (c, false)
-    | _ => (c, false)
-  | .union ms => some fun c =>
-    match c with
-    | .arr xs =>
-      if anyIdx (hasN dev xs.length ms) xs.length then (.arr (dropFirstIdx (hasN dev xs.length ms) 0 xs), true) else (c, false)
-    | .obj kvs =>
-      match firstKey (hasKey ms) kvs with
-      | some k => (.obj (kvErase k kvs), true)
-      | none => (c, false)
-    | _ => (c, false)
-  | .slice s e t => some fun c =>
-    match c with
-    | .arr xs =>
-      if anyIdx (remSel dev xs.length s e t) xs.length then
-        (.arr (if negStep t then dropLastIdx (remSel dev xs.length s e t) xs
-               else dropFirstIdx (remSel dev xs.length s e t) 0 xs), true)
-      else (c, false)
-    | _ => (c, false)
-  | .filter p => some fun c =>
-    match c with
-    | .arr xs => if xs.any p then (.arr (dropFirstIdx (fun i => p (xs.getD i .null)) 0 xs), true) else (c, false)
-    | .obj kvs =>
-      match firstKey (fun k => p (lookupD k kvs)) kvs with
-      | some k => (.obj (kvErase k kvs), true)
-      | none => (c, false)
-    | _ => (c, false)
+  | .wild => some remWildOne
+  | .union ms => some (remUnionOne dev ms)
+  | .slice s e t => some (remSliceOne dev s e t)
+  | .filter p => some (remFilterOne p)
   | _ => removeAllOf dev f
 
 /-- Remove / RemoveOne: `modify` of the path without its last fragment with that fragment's remover -/
@@ -708,5 +738,12 @@ def removeM (gen : Bool) (dev : Dev) (one : Bool) (x : List Frag) (d : JV) : Out
     match (if one then removeOneOf dev f else removeAllOf dev f) with
     | none => .err .notRemovable d
     | some m => modifyCore gen dev one m x.dropLast d
+
+/-- the model of the entry point a mutation names -/
+def runModel (gen : Bool) (dev : Dev) (one : Bool) (x : List Frag) (d : JV) : Op → Out
+  | .set v => setM gen dev one (.val v) x d
+  | .del => setM gen dev one .del x d
+  | .mod m => modifyM gen dev one m x d
+  | .rem => removeM gen dev one x d
 
 end OjgVerif.JPMut
